@@ -675,6 +675,65 @@ theorem locate_start (len : Len) (a : Pt) (rest : List Pt) :
       simp only [segs, locateGo, hz, hfr, if_true, locateGo_done]
       simp
 
+/-! ### on the line; polygons -/
+
+/-- [T] a point at arc length `d` of a chain lies on one of its segments: it is `lerp a b t` for a
+segment `(a,b)` of the chain and some `t ∈ [0,1]`. Together with `ls_distance_onSegs` this is
+"`point_at_distance_from_start` lies on the line". -/
+theorem onSegs_on_segment {len : Len} (hl : LenAx len) : ∀ (ss : List (Pt × Pt)) (d : Rat) (p : Pt),
+    OnSegs len ss d p → ∃ s ∈ ss, ∃ t : Rat, 0 ≤ t ∧ t ≤ 1 ∧ p = lerp s.1 s.2 t
+  | [], _, _, h => h.elim
+  | (a, b) :: rest, d, p, h => by
+    rcases h with ⟨h0, h1, hp⟩ | h
+    · refine ⟨(a, b), by simp, d / len a b, ?_, ?_, ?_⟩
+      · exact div_nonneg h0 (hl.nonneg a b)
+      · by_cases hz : len a b = 0
+        · rw [hz]; simp
+        · have hpos : 0 < len a b := lt_of_le_of_ne (hl.nonneg a b) (Ne.symm hz)
+          rw [div_le_iff₀ hpos]; linarith
+      · rw [hp, lerp_div]
+    · obtain ⟨s, hs, t, ht⟩ := onSegs_on_segment hl rest _ p h
+      exact ⟨s, by simp [hs], t, ht⟩
+
+/-- [T] Line: `from_start(d)` and `from_end(length − d)` are the same point for `0 ≤ d ≤ length`. -/
+theorem line_distance_start_end {len : Len} (hl : LenAx len) (a b : Pt) (d : Rat)
+    (h0 : 0 ≤ d) (h1 : d ≤ len a b) :
+    linePointAtDistanceFromStart len a b d = linePointAtDistanceFromEnd len a b (len a b - d) := by
+  unfold linePointAtDistanceFromStart linePointAtDistanceFromEnd
+  by_cases hd0 : d ≤ 0
+  · have e : d = 0 := le_antisymm hd0 h0
+    subst e
+    by_cases hz : len a b ≤ 0
+    · have hz' : len a b = 0 := le_antisymm hz (hl.nonneg a b)
+      have := hl.eq_of_zero a b hz'; subst this
+      simp [hz']
+    · simp [hz]
+  · rw [if_neg hd0]
+    by_cases hd1 : d ≥ len a b
+    · have e : d = len a b := le_antisymm h1 hd1
+      simp [e]
+    · have h2 : ¬ (len a b - d ≤ 0) := by linarith [not_le.1 hd1]
+      have h3 : ¬ (len a b - d ≥ len a b) := by intro h; apply hd0; linarith
+      rw [if_neg hd1, if_neg h2, if_neg h3, pdb_flip hl]
+
+/-- [T] Polygon / Rect / Triangle: a closed ring stays closed under densify, so `Polygon::new`
+adds nothing and every ring of the result is the densified ring (with `densify_sublist`,
+`densify_ls_pieces`, `densify_ls_length` applying to it). -/
+theorem densify_poly_rings (len : Len) (mx : Rat) (p : Poly) (he : SM.isClosed p.ext = true)
+    (hi : ∀ r ∈ p.ints, SM.isClosed r = true) :
+    densifyPoly len p mx = ⟨densifyLS len p.ext mx, p.ints.map (fun r => densifyLS len r mx)⟩ := by
+  unfold densifyPoly
+  rw [densify_ring_closed len mx p.ext he]
+  congr 1
+  apply List.map_congr_left
+  intro r hr
+  exact densify_ring_closed len mx r (hi r hr)
+
+/-- [T] the rings `Rect::to_polygon` / `Triangle::to_polygon` hand to densify are closed. -/
+theorem rect_tri_rings_closed (mn mxp a b c : Pt) :
+    SM.isClosed (rectToPoly mn mxp).ext = true ∧ SM.isClosed (triToPoly a b c).ext = true := by
+  constructor <;> simp [SM.isClosed, rectToPoly, triToPoly]
+
 /-! ### non-vacuity: the hypotheses are satisfiable, on a path with a repeated vertex
 
 `l1` (taxicab length, `GeoProofs/Lemmas/C15.lean`) satisfies `LenAx` and `LenLerp`. -/
@@ -697,6 +756,12 @@ example : lsLength l1 (densifyLS l1 exPath (3 / 2)) = lsLength l1 exPath :=
 example : 0 < numSegments l1 ⟨2, 0⟩ ⟨2, 3⟩ (3 / 2) ∧ l1 ⟨2, 0⟩ ⟨2, 3⟩ / (numSegments l1 ⟨2, 0⟩ ⟨2, 3⟩ (3 / 2) : Rat) ≤ 3 / 2 ∧
     ((numSegments l1 ⟨2, 0⟩ ⟨2, 3⟩ (3 / 2) : Rat) - 1) * (3 / 2) < l1 ⟨2, 0⟩ ⟨2, 3⟩ :=
   densify_piece_bound l1_ax _ _ _ (by norm_num) (by norm_num [l1])
+
+example : densifyPoly l1 (rectToPoly ⟨0, 0⟩ ⟨4, 2⟩) 1 =
+    ⟨densifyLS l1 (rectToPoly ⟨0, 0⟩ ⟨4, 2⟩).ext 1, []⟩ :=
+  densify_poly_rings l1 1 _ (rect_tri_rings_closed _ _ ⟨0, 0⟩ ⟨0, 0⟩ ⟨0, 0⟩).1 (by simp [rectToPoly])
+example : linePointAtDistanceFromStart l1 ⟨0, 0⟩ ⟨3, 4⟩ 2 = linePointAtDistanceFromEnd l1 ⟨0, 0⟩ ⟨3, 4⟩ (l1 ⟨0, 0⟩ ⟨3, 4⟩ - 2) :=
+  line_distance_start_end l1_ax _ _ _ (by norm_num) (by norm_num [l1])
 
 /-- the simplicity hypothesis of the partial theorem holds on a concrete simple path, at its end -/
 example : EarlierApart l1 [⟨0, 0⟩, ⟨2, 0⟩, ⟨2, 3⟩] 5 ⟨2, 3⟩ := by
